@@ -11,6 +11,7 @@ import (
 	"fmt"
 	"math/rand"
 	"os"
+	"runtime/debug"
 	"time"
 
 	"cosmossdk.io/log"
@@ -95,17 +96,21 @@ type EvmChain struct {
 }
 
 type Options struct {
-	Salt          string   // makes all keys of a case distinct from other cases
-	Stakes        []int64  // one validator per entry, in ugrain (>= 1_000_000 each)
-	ValSeeds      []string // optional explicit actor seeds for the validators (C12 address patterns)
-	Users         []string // extra funded accounts
-	UserBalance   int64
-	InitialHeight int64
-	EvmChains     []EvmChain
-	CommunityFee  string
-	SecurityFee   string
-	ExtraBalances map[string]sdk.Coins // bech32 -> coins
-	Logger        log.Logger
+	// UnpublishedChains: remote chains that are activated without any validator-set snapshot recorded as published
+	// on them (the state after importing exported chain state: just-in-time validator-set updates fail there).
+	UnpublishedChains map[string]bool
+	Salt              string   // makes all keys of a case distinct from other cases
+	Stakes            []int64  // one validator per entry, in ugrain (>= 1_000_000 each)
+	ValSeeds          []string // optional explicit actor seeds for the validators (C12 address patterns)
+	Users             []string // extra funded accounts
+	UserBalance       int64
+	InitialHeight     int64
+	EvmChains         []EvmChain
+	CommunityFee      string
+	SecurityFee       string
+	ExtraBalances     map[string]sdk.Coins // bech32 -> coins
+	UserExtra         sdk.Coins            // additional coins every user account holds at genesis
+	Logger            log.Logger
 }
 
 type Chain struct {
@@ -216,7 +221,7 @@ func New(o Options) (*Chain, error) {
 		a.Name = n
 		c.Users[n] = a
 		accs = append(accs, authtypes.NewBaseAccount(a.Addr, a.SK.PubKey(), 0, 0))
-		bals = append(bals, banktypes.Balance{Address: a.Addr.String(), Coins: sdk.NewCoins(sdk.NewCoin(BondDenom, math.NewInt(o.UserBalance)))})
+		bals = append(bals, banktypes.Balance{Address: a.Addr.String(), Coins: sdk.NewCoins(sdk.NewCoin(BondDenom, math.NewInt(o.UserBalance))).Add(o.UserExtra...)})
 	}
 	for addr, coins := range o.ExtraBalances {
 		bals = append(bals, banktypes.Balance{Address: addr, Coins: coins})
@@ -314,6 +319,9 @@ func (c *Chain) Block(txs ...[]byte) (res *abci.ResponseFinalizeBlock, err error
 	defer func() {
 		if r := recover(); r != nil {
 			err = fmt.Errorf("PANIC in FinalizeBlock h=%d: %v", c.H, r)
+			if os.Getenv("VERIF_PANIC_STACK") != "" {
+				err = fmt.Errorf("%w\n%s", err, debug.Stack())
+			}
 		}
 	}()
 	res, err = c.App.FinalizeBlock(&abci.RequestFinalizeBlock{Height: c.H, Time: BlockTime(c.H), Txs: txs})
@@ -507,8 +515,10 @@ func (c *Chain) ActivateAll(uniqueID string) error {
 		return err
 	}
 	for i, ec := range c.Opts.EvmChains {
-		if err := c.App.ValsetKeeper.SetSnapshotOnChain(ctx, snap.Id, ec.RefID); err != nil {
-			return err
+		if !c.Opts.UnpublishedChains[ec.RefID] {
+			if err := c.App.ValsetKeeper.SetSnapshotOnChain(ctx, snap.Id, ec.RefID); err != nil {
+				return err
+			}
 		}
 		addr := fmt.Sprintf("0x00000000000000000000000000000000000000c%d", i+1)
 		if err := c.App.EvmKeeper.ActivateChainReferenceID(ctx, ec.RefID, sc, addr, []byte(uniqueID)); err != nil {
